@@ -712,7 +712,7 @@ func genCase(rt *rapid.T) Case {
 		p.Body = append(p.Body, lang.Probe("final-"+n, n))
 	}
 	var tags []string
-	for _, t := range []string{"shadow-let", "shadow-param", "closure-after-return", "alias", "param-reference", "nested-path", "numeric-map-key", "object-with-super", "read-after-write-unusual-key", "fewer-arguments-than-parameters"} {
+	for _, t := range []string{"shadow-let", "shadow-param", "closure-after-return", "alias", "param-reference", "nested-path", "numeric-map-key", "object-with-super", "read-after-write-unusual-key", "fewer-arguments-than-parameters", "container-default-changed-in-place", "same-assignment-other-index"} {
 		if g.tags[t] {
 			tags = append(tags, t)
 		}
